@@ -129,6 +129,8 @@ def build():
         'engines': [
             {'name': 'tlc', 'path': 'spec/', 'serves_properties': sorted(CLAIMED),
              'kind_free_text': 'explicit TLA+ specifications checked by TLC 1.8; conformance by replay of TLC-emitted cases into /repo code and TLC validation of recorded executions'},
+            {'name': 'apalache', 'path': 'spec/WriterChainInd.tla', 'serves_properties': ['C15'],
+             'kind_free_text': 'Apalache 0.58: inductive invariant of the writer-protocol abstraction WriterChain (unbounded number of writes); the engine specification refines WriterChain (checked by TLC)'},
         ],
         'checks': checks,
         'not_applicable': [{'property_id': p, 'reason': PENDING_REASON} for p in ALL if p not in CLAIMED],
